@@ -189,3 +189,17 @@ Lemma ex_rollback :
   nodes (h_cur (hrun (hstep (hrun hinit [HMerge A1]) (HSnap 100)) [HMerge A2; HSnap 101; HUnmerge 1; HRollback 101; HMerge A3]))
     <> nodes (h_cur (hrun hinit [HMerge A1])).
 Proof. split; [|split]; vm_compute; try reflexivity. discriminate. Qed.
+
+(* two snapshots outstanding at the same time, the model changed in between, rolled back in either order: each
+   rollback gives the model of ITS snapshot (instance of rollback_restores; a later HSnap with another id is one of
+   the "operations not using that snapshot id") *)
+Lemma ex_two_snapshots :
+  let s1 := hrun hinit [HMerge A1] in
+  let s2 := hrun hinit [HMerge A1; HSnap 100; HMerge A2] in
+  let mid := [HMerge A2; HSnap 101; HMerge A3] in
+  forallb (fun o => negb (touches 100 o)) mid = true /\
+  h_cur (hrun hinit ([HMerge A1; HSnap 100] ++ mid ++ [HRollback 100])) = h_cur s1 /\
+  h_cur (hrun hinit ([HMerge A1; HSnap 100] ++ mid ++ [HRollback 101])) = h_cur s2 /\
+  h_cur (hrun hinit ([HMerge A1; HSnap 100] ++ mid ++ [HRollback 101; HRollback 100])) = h_cur s1 /\
+  nodes (h_cur s1) <> nodes (h_cur s2).
+Proof. repeat split; try (vm_compute; reflexivity). vm_compute. discriminate. Qed.
